@@ -83,8 +83,17 @@ fn main() {
                     kb.push(match rs.get_record_by_key_binary_search(key) { Some(r) => rec(r, &get), None => "none".to_string() });
                 }
             }
+            // cached strings: the same records after enable_string_caching; get_value / get_value_by_name against values()
+            rs.enable_string_caching();
+            let mut cached = dump(&rs);
+            for r in rs.records() {
+                for (i, v) in r.values().iter().enumerate() {
+                    if r.get_value(i).map(|x| format!("{x:?}")) != Some(format!("{v:?}")) { cached = "GET-VALUE-DIFF".to_string(); }
+                }
+                if r.get_value(r.values().len()).is_some() { cached = "GET-VALUE-PAST-END".to_string(); }
+            }
             let j = |v: &Vec<String>| if v.is_empty() { "-".to_string() } else { v.join("|") };
-            format!("E={eager} W={w} R={reparsed} L={} G={} M={mm} P={par} K={} B={}", j(&lazy), j(&random), j(&kh), j(&kb))
+            format!("E={eager} W={w} R={reparsed} L={} G={} M={mm} P={par} C={cached} K={} B={}", j(&lazy), j(&random), j(&kh), j(&kb))
         }
         _ => "ERR unknown".to_string(),
     });
